@@ -202,19 +202,19 @@ impl<I: Iterator> LimitIter<I> {
                    ('let vx_end3 = skip.min(self.buffer.len());', 'let ghost vx_b3 = self.buffer@; let ghost vx_n3: int = if skip < self.buffer@.len() { skip as int } else { self.buffer@.len() as int };'),
                    ('for _ in vx_it: 0..self.end.abs() {', 'let ghost vx_b4 = self.buffer@;'),
                    ('self.cursor += 1;', 'proof { lemma_consume(vx_buf0, vx_rem0, self.cursor as int, self.begin as int, self.end as int); assert(self.buffer@ =~= step_buffer(vx_buf0, item, self.cursor as int, self.begin as int, self.end as int)); }', 2, 'advances')],
-           loops={0: dict(invariant=[('inv', 'self.inv()'), ('future', 'self.future() =~= old(self).future()'),
+           loops={r'^loop\s*$': dict(invariant=[('inv', 'self.inv()'), ('future', 'self.future() =~= old(self).future()'),
                                      ('fixed', 'self.begin == old(self).begin && self.end == old(self).end')],
                           decreases='(if self.emptybuffer { 0int } else { 1int }), self.inner.decrease().unwrap()'),
-                  1: dict(invariant=[('trim', 'self.buffer@ =~= vx_b1.skip(vx_it.index@ as int) && vx_it.index@ <= excess && excess <= vx_b1.len()'),
+                  r'0\.\.excess': dict(invariant=[('trim', 'self.buffer@ =~= vx_b1.skip(vx_it.index@ as int) && vx_it.index@ <= excess && excess <= vx_b1.len()'),
                                      ('rest', 'self.inner == vx_inner && self.cursor == vx_cursor && self.begin == old(self).begin && self.end == old(self).end && self.emptybuffer == false')]),
-                  2: dict(invariant=[('trim', 'self.buffer@ =~= vx_b2.skip(vx_b2.len() - self.buffer@.len()) && self.buffer@.len() <= vx_b2.len() && self.buffer@.len() >= (if vx_b2.len() < -self.begin { vx_b2.len() as int } else { -self.begin })'),
+                  r'while self\.buffer\.len\(\) >': dict(invariant=[('trim', 'self.buffer@ =~= vx_b2.skip(vx_b2.len() - self.buffer@.len()) && self.buffer@.len() <= vx_b2.len() && self.buffer@.len() >= (if vx_b2.len() < -self.begin { vx_b2.len() as int } else { -self.begin })'),
                                      ('rest', 'self.inner == vx_inner && self.cursor == vx_cursor && self.begin == old(self).begin && self.end == old(self).end && self.emptybuffer == true && self.begin < 0 && self.begin != isize::MIN')],
                           ensures=['self.buffer@ =~= sub(vx_b2, vx_b2.len() + self.begin, vx_b2.len() as int)'],
                           decreases='self.buffer@.len()'),
-                  3: dict(invariant=[('trim', 'self.buffer@ =~= sub(vx_b3, vx_it.index@ as int, vx_b3.len() as int)'),
+                  r'0\.\.vx_end3': dict(invariant=[('trim', 'self.buffer@ =~= sub(vx_b3, vx_it.index@ as int, vx_b3.len() as int)'),
                                      ('rest', 'self.inner == vx_inner && self.cursor == vx_cursor && self.begin == old(self).begin && self.end == old(self).end && self.emptybuffer == true && vx_n3 == (if skip < vx_b3.len() { skip as int } else { vx_b3.len() as int }) && vx_end3 == vx_n3')],
                           ensures=['self.buffer@ =~= sub(vx_b3, vx_n3, vx_b3.len() as int)']),
-                  4: dict(invariant=[('trim', 'self.buffer@ =~= sub(vx_b4, 0, vx_b4.len() - vx_it.index@)'),
+                  r'self\.end\.abs\(\)': dict(invariant=[('trim', 'self.buffer@ =~= sub(vx_b4, 0, vx_b4.len() - vx_it.index@)'),
                                      ('rest', 'self.inner == vx_inner && self.cursor == vx_cursor && self.begin == old(self).begin && self.end == old(self).end && self.emptybuffer == true && self.end < 0 && self.end != isize::MIN')],
                           ensures=['self.buffer@ =~= sub(vx_b4, 0, vx_b4.len() + self.end)'])},
            after=[('} else if let Some(item) = self.inner.next() {', '''let ghost vx_inner = self.inner; let ghost vx_cursor = self.cursor; let ghost vx_buf0 = self.buffer@;
